@@ -256,7 +256,14 @@ fn seg_strategy() -> impl Strategy<Value = Seg> {
 }
 
 fn build(segs: &[Seg]) -> (Vec<u8>, Vec<usize>, Vec<usize>) {
-    let mut buf = Vec::new();
+    build_after(segs, 0)
+}
+
+/// `gap` octets of small terminated names ("\x03abc\x00" repeated) come first, so that every
+/// segment, and every pointer to a segment, lies at a large offset.
+fn build_after(segs: &[Seg], gap: usize) -> (Vec<u8>, Vec<usize>, Vec<usize>) {
+    let mut buf: Vec<u8> = b"\x03abc\x00".iter().copied().cycle().take(gap).collect();
+    let cap = gap + 600;
     let mut starts = Vec::new();
     // offsets worth starting at that are not segment starts (ends of pointer chains)
     let mut specials = Vec::new();
@@ -297,7 +304,7 @@ fn build(segs: &[Seg]) -> (Vec<u8>, Vec<usize>, Vec<usize>) {
                 let mut target = buf.len();
                 buf.extend_from_slice(&[1, b'a', 0]);
                 for _ in 0..*n {
-                    if buf.len() + 2 > 600 || target > 0x3fff {
+                    if buf.len() + 2 > cap || target > 0x3fff {
                         break;
                     }
                     let here = buf.len();
@@ -308,8 +315,8 @@ fn build(segs: &[Seg]) -> (Vec<u8>, Vec<usize>, Vec<usize>) {
                 specials.push(target);
             }
         }
-        if buf.len() > 600 {
-            buf.truncate(600);
+        if buf.len() > cap {
+            buf.truncate(cap);
             break;
         }
     }
@@ -322,9 +329,11 @@ pub fn case_strategy() -> impl Strategy<Value = Case> {
         any::<u16>(),
         0u8..10,
         any::<u16>(),
+        // one buffer in eight starts with a gap, so that pointer offsets use the high bits of the 14-bit field
+        prop_oneof![28 => Just(0usize), 1 => 250usize..260, 1 => 1020usize..1030, 1 => 4090usize..4100, 1 => 16370usize..16390],
     )
-        .prop_map(|(segs, sel, mode, cut)| {
-            let (mut buf, starts, specials) = build(&segs);
+        .prop_map(|(segs, sel, mode, cut, gap)| {
+            let (mut buf, starts, specials) = build_after(&segs, gap);
             // sometimes truncate the buffer
             if mode == 9 && !buf.is_empty() {
                 let keep = (cut as usize * (buf.len() + 1)) >> 16;
